@@ -50,12 +50,17 @@ outer:
 				isGlob = true
 			}
 			break outer
+		case '\\':
+			// An escape ends the literal prefix. The escaped character is
+			// not part of the prefix as written, so do not use it for limits.
+			break outer
 		}
 		n++
 	}
 	if n == 0 {
-		g.Limits = []string{pattern, pattern}
-		g.IsGlob = false
+		// The pattern starts with a metacharacter or an escape. There is no
+		// literal prefix to derive limits from, everything must be scanned.
+		g.IsGlob = isGlob
 		return g
 	}
 	var a, b string
